@@ -6,6 +6,7 @@ import (
 	"fmt"
 	"os"
 	"reflect"
+	"strconv"
 	"strings"
 	"text/template"
 )
@@ -27,6 +28,8 @@ func init() {
 				"title":      titleFunc,
 
 				"prefixError": prefixErrorFunc,
+				"goString":    goStringBody,
+				"goFormat":    goFormatBody,
 				"wrapError":   wrapErrorFunc,
 			}).
 			ParseFS(templatesFS, "*.gotmpl"),
@@ -78,6 +81,17 @@ func commentFunc(s string) (string, error) {
 
 func titleFunc(s string) (string, error) {
 	return Title(s), nil
+}
+
+// goStringBody renders s as the inside of a double-quoted Go string literal.
+func goStringBody(s string) string {
+	q := strconv.Quote(s)
+	return q[1 : len(q)-1]
+}
+
+// goFormatBody is goStringBody for a literal that is used as a fmt format string.
+func goFormatBody(s string) string {
+	return strings.ReplaceAll(goStringBody(s), "%", "%%")
 }
 
 func prefixErrorFunc(prefix string) (ErrorRender, error) {
